@@ -111,6 +111,81 @@ Proof.
   split; [exact H1 | exact H2].
 Qed.
 
+
+(* ---------------------------------------------------------------- con, inv, div, smod, mod *)
+(* as cplx_err_ok, for unit roundoffs u <= umax (any precision >= 8 bits has u = 2^(1-prec) <= 1/128) *)
+Definition cplx_err_ok_u (umax K : R) (p : prog) (sp : spec) : Prop :=
+  forall rnd u, std_model rnd u -> u <= umax -> forall s, pre sp s ->
+    match outs sp with
+    | [(dr, er); (di, ei)] =>
+        let s' := run rnd p s in
+        (s' dr - er s) * (s' dr - er s) + (s' di - ei s) * (s' di - ei s)
+          <= (K * u) * (K * u) * (er s * er s + ei s * ei s)
+    | _ => False
+    end.
+
+(* real-valued destination (mpc_smod, mpc_mod): |res - exact| <= K u |exact| *)
+Definition real_err_ok_u (umax K : R) (p : prog) (sp : spec) : Prop :=
+  forall rnd u, std_model rnd u -> u <= umax -> forall s, pre sp s ->
+    match outs sp with
+    | [(dr, er)] => Rabs (run rnd p s dr - er s) <= K * u * Rabs (er s)
+    | _ => False
+    end.
+
+Lemma sumsq_pos x y : x * x + y * y <> 0 -> 0 < x * x + y * y.
+Proof. intro H. pose proof (sq_nonneg x). pose proof (sq_nonneg y). lra. Qed.
+
+Ltac err_intro_u :=
+  let rnd := fresh "rnd" in let u := fresh "u" in let H := fresh "Hstd" in let Hu := fresh "Hu" in
+  let s := fresh "s" in let Hp := fresh "Hpre" in
+  intros rnd u H Hu s Hp; mpf_cbv; mpf_cbv_in Hp.
+
+Ltac con_tac :=
+  err_intro_u;
+  match goal with H : std_model ?rnd ?u |- _ =>
+    eapply Rle_trans; [ apply (con_err rnd u H) | right; ring ] end.
+
+Ltac inv_tac :=
+  err_intro_u;
+  match goal with H : std_model ?rnd ?u, Hp : _ <> 0 |- _ =>
+    eapply Rle_trans; [ apply (inv_err rnd u H); [ apply sumsq_pos; exact Hp | lra ] | right; ring ] end.
+
+Ltac div_tac :=
+  err_intro_u;
+  match goal with H : std_model ?rnd ?u, Hp : _ <> 0 |- _ =>
+    eapply Rle_trans; [ apply (div_err rnd u H); [ apply sumsq_pos; exact Hp | lra ] | right; ring ] end.
+
+Definition entries_con : list (prog * spec) :=
+  [ (prog_mpc_con_p0, spec_mpc_con_p0); (prog_mpc_con_p1, spec_mpc_con_p1) ].
+Lemma con_all : Forall (fun e => cplx_err_ok_u 1 2 (fst e) (snd e)) entries_con.
+Proof. unfold entries_con. all_entries ltac:(simpl fst; simpl snd; con_tac). Qed.
+
+Definition entries_inv : list (prog * spec) :=
+  [ (prog_mpc_inv_p0, spec_mpc_inv_p0); (prog_mpc_inv_p1, spec_mpc_inv_p1) ].
+Lemma inv_all : Forall (fun e => cplx_err_ok_u (/ 16) 6 (fst e) (snd e)) entries_inv.
+Proof. unfold entries_inv. all_entries ltac:(simpl fst; simpl snd; inv_tac). Qed.
+
+Definition entries_div : list (prog * spec) :=
+  [ (prog_mpc_div_p0, spec_mpc_div_p0); (prog_mpc_div_p1, spec_mpc_div_p1); (prog_mpc_div_p2, spec_mpc_div_p2);
+    (prog_mpc_div_p3, spec_mpc_div_p3); (prog_mpc_div_p4, spec_mpc_div_p4) ].
+Lemma div_all : Forall (fun e => cplx_err_ok_u (/ 128) 24 (fst e) (snd e)) entries_div.
+Proof. unfold entries_div. all_entries ltac:(simpl fst; simpl snd; div_tac). Qed.
+
+Lemma sumsq_abs x y : Rabs (x * x + y * y) = x * x + y * y.
+Proof. apply Rabs_right. pose proof (sq_nonneg x). pose proof (sq_nonneg y). lra. Qed.
+
+Lemma smod_prog_err : real_err_ok_u 1 2 prog_mpc_smod_p0 spec_mpc_smod_p0.
+Proof.
+  err_intro_u. rewrite sumsq_abs.
+  match goal with H : std_model ?rnd ?u |- _ => apply (smod_err rnd u H); lra end.
+Qed.
+
+Lemma mod_prog_err : real_err_ok_u 1 2 prog_mpc_mod_p0 spec_mpc_mod_p0.
+Proof.
+  err_intro_u. rewrite (Rabs_right (sqrt _)) by (apply Rle_ge; apply sqrt_pos).
+  match goal with H : std_model ?rnd ?u |- _ => apply (mod_err rnd u H); lra end.
+Qed.
+
 (* non-vacuity: the exact arithmetic is a standard model with u = 0, and a concrete store *)
 Definition store0 : store := fun r =>
   match r with C1Re => 3 | C1Im => 2 | C2Re => 5 | C2Im => -7 | F1 => 11 | _ => 1 end.
